@@ -44,6 +44,12 @@ def cases(ctx):
             s = "".join(map(chr, t))
             for seed in SEEDS + (ODD_SEEDS if n <= 2 else []):
                 out.append((s, seed))
+    # whole 4-byte blocks with special values (all zero, all ones, a lone high bit at either end) at every block position, with every tail length
+    words = ["\x00\x00\x00\x00", "\xff\xff\xff\xff", "\x00\x00\x00\x80", "\x80\x00\x00\x00", "AAAA"]
+    for nb in (1, 2, 3):
+        for t in itertools.product(words, repeat=nb):
+            for tail in ("", "\x00", "A\x00", "\x00\x00\x00"):
+                out.append(("".join(t) + tail, SEEDS[(nb + len(tail)) % len(SEEDS)]))
     nrand = 400 if ctx.quick else 6000
     for _ in range(nrand):
         n = ctx.rng.randrange(0, 65)
@@ -70,7 +76,7 @@ def correspondence(ctx):
     distinct = len({(s, seed) for s, seed in cs if len(s) >= 1})
     return {"evaluations": len(cs), "distinct_nontrivial": distinct,
             "rule": "generated Gallina murmur3_32 (extracted) vs Python murmur3_32: all strings of length <= 3 over "
-                    "{00,41,7F,80,FF,U+1234} x seeds {0,1,2^31,2^32-1,(-1,2^40+7)}, random lengths 0..64 (80% Latin-1, "
+                    "{00,41,7F,80,FF,U+1234} x seeds {0,1,2^31,2^32-1,(-1,2^40+7)}, 1-3 blocks of special words (zero, ones, lone high bit) x 4 tails, random lengths 0..64 (80% Latin-1, "
                     "20% any code point) with 32-bit and out-of-range seeds, lengths 255..4099; non-trivial = non-empty string",
             "samples": [{"data": [ord(c) for c in s], "seed": seed, "result": m} for (s, seed), m in list(zip(cs, model))[300:304]],
             "distribution": {"lengths": {str(k): sum(1 for s, _ in cs if len(s) == k) for k in (0, 1, 2, 3)},
